@@ -79,6 +79,15 @@ fn main() {
             let v = serde_json::json!({"property": args[2], "stage": args[3], "config": "any", "message": "", "rendered": h.render(), "case": h});
             println!("{}", serde_json::to_string_pretty(&v).unwrap());
         }
+        "mkmixed" => {
+            // sev mkmixed <property> <stage> <lang> "<script>" [config] [extraction]
+            let lang = sev::script::lang_by_name(&args[4]).expect("language");
+            let cfgname = args.get(6).cloned().unwrap_or_else(|| "any".into());
+            let ex = args.get(7).map(|s| s == "extraction").unwrap_or(false);
+            let h = sev::mixed::Mixed::from_script(lang, &args[5], ex).expect("script");
+            let v = serde_json::json!({"property": args[2], "stage": args[3], "config": cfgname, "message": "", "rendered": h.render(), "case": h});
+            println!("{}", serde_json::to_string_pretty(&v).unwrap());
+        }
         "list" => {
             for p in sev::props::ALL {
                 println!("{p}");
